@@ -215,6 +215,12 @@ func runC12(c *Ctx) {
 
 	// ---- system under test ----
 	w.sink = zsim.NewSimSink(r, "disk", frag, uint64(g.Draw(1<<16))+1)
+	if !crash && c.F.Chance(12) {
+		// a slow device: every call into it takes 0.3 s to 2 min of the run's
+		// clock. Nothing fails; Sync and Stop take as long as the device takes
+		w.sink.Delay = pick(c.F, 300*time.Millisecond, 6*time.Second, 2*time.Minute)
+		c.Fault("slow-device")
+	}
 	clk := zsim.NewSimClock(r, drawEpoch(g))
 	// the device is handed over bare or, as most programs do, behind Lock
 	var dev zapcore.WriteSyncer = w.sink
@@ -609,7 +615,8 @@ func (w *c12) onStep(clk *zsim.SimClock) {
 	}
 	if len(w.ticksPending) > 0 && len(clk.Tickers) > 0 {
 		tk := clk.Tickers[0]
-		busy := c.R.BGParkedIn(tk.Owner, tk.OwnerLen)
+		// (or asleep inside a slow device: it holds the lock, on the bubble's clock)
+		busy := c.R.BGParkedIn(tk.Owner, tk.OwnerLen) || c.R.Sleepers.Load() > 0
 		if !busy && len(tk.C) == 0 && w.inOp.Load() == 0 {
 			at := w.ticksPending[0].at
 			w.ticksPending = w.ticksPending[1:]
@@ -631,7 +638,7 @@ func c12tickStuck(c *Ctx, tk *zsim.SimTicker, count *int, idle bool) bool {
 		*count = 0
 		return false
 	}
-	if idle && !c.R.BGParkedIn(tk.Owner, tk.OwnerLen) {
+	if idle && !c.R.BGParkedIn(tk.Owner, tk.OwnerLen) && c.R.Sleepers.Load() == 0 {
 		*count++
 		if *count >= 2 {
 			c.Fail("C12-F: a delivered flush tick is never processed although the syncer has not been stopped", "the same tick sits in the ticker's channel at two quiescent points at which nothing could keep a flush goroutine from taking it: none is taking ticks any more")
